@@ -19,6 +19,8 @@ import Driver.ReqResp
 import Driver.Emitter
 import Driver.GenStatus
 import Driver.Lifecycle
+import Driver.Collection
+import Driver.Roots
 
 def main (args : List String) : IO UInt32 := do
   match args with
@@ -44,6 +46,8 @@ def main (args : List String) : IO UInt32 := do
   | ["EMITTER"] => Driver.Emitter.main; return 0
   | ["C15STATUS"] => Driver.GenStatus.main; return 0
   | ["C18LIFE"] => Driver.Lifecycle.main; return 0
+  | ["LIBCOLL"] => Driver.Collection.main; return 0
+  | ["ROOTS"] => Driver.Roots.main; return 0
   | ["C17"] => Driver.ReqResp.main; return 0
   | ["C01"] => Driver.BFT.main; return 0
   | _ => IO.eprintln "usage: ldriver <property-id>"; return 2
